@@ -262,9 +262,9 @@ fn parse_iso8601_inner(s: &[u8]) -> IsoVerdict {
     let local = Instant::from_civil(year as i64, month, day, hour, minute, second, nanos);
     let inst = Instant { secs: local.secs - offset_secs, nanos };
     let y = inst.year();
-    if y < 1 || y > 9999 {
-        // the instant itself is outside years 1..9999 once the offset is applied
-        return Unspecified("instant outside years 1-9999 after applying the offset", Some(inst));
+    if y < 0 || y > 9999 {
+        // the instant itself is outside years 0000..9999 once the offset is applied: YYYYMMDD'T'hhmmss'Z' cannot say it
+        return Unspecified("instant outside years 0000-9999 after applying the offset", Some(inst));
     }
     match unspecified {
         Some(r) => Unspecified(r, Some(inst)),
